@@ -26,7 +26,7 @@ EXPLANATION = ('FRAME rounding classes and minimum length in frames_from_times; 
 TRUSTED = ['int() is floor for non-negative operands', 'numpy semantics']
 NOT_DECIDED = ['exact frame sets for off-grid times', 'mutual inverse as a whole']
 ASSUMPTIONS = []
-FLOORS = {'FRAME': 4, 'ALLOC': 2, 'SKIP': 1, 'WINDOW': 2, 'VELO': 1, 'DEC': 8}
+FLOORS = {'FRAME': 4, 'ALLOC': 2, 'SKIP': 1, 'WINDOW': 2, 'VELO': 1, 'DEC': 10}
 
 
 def E(t):
@@ -226,12 +226,32 @@ def decoder(ctx):
     okp = 'onset_predictions[i, pitch] and (not onset_predictions[i - 1, pitch])' in t.replace(pa.params()[1], 'i').replace(pa.params()[0], 'pitch') and 'end_pitch(' in t
   ctx.ob('DEC/onset-restart', pa or fi, (pa or fi).node, okp, 'a fresh onset (on now, off in the previous frame) inside a run ends the note and starts a new one' if okp else
          'a fresh onset inside a run does not end and restart the note')
+  # ending a pitch always forgets its start, whether or not the note is long enough to be emitted
+  dels = [s for s in ep.node.body if isinstance(s, ast.Delete) and len(s.targets) == 1 and isinstance(s.targets[0], ast.Subscript) and
+          norm_text(s.targets[0].value) == 'pitch_start_step' and norm_text(s.targets[0].slice) == ep.params()[0]]
+  alld = [s for s in U.walk_stmts(ep.node) if isinstance(s, ast.Delete)]
+  okc = len(dels) == 1 and len(alld) == 1
+  ctx.ob('DEC/end-clears-start', ep, alld[0] if alld else ep.node, okc, 'end_pitch removes the pitch from the open runs unconditionally' if okc else
+         'end_pitch does not always remove the pitch from pitch_start_step: a run that is too short stays open and is ended again on every later frame',
+         construct='del pitch_start_step[pitch] at the top level of end_pitch')
+  # preprocessing order: frames |= onsets, then frames &= ~offsets (a predicted offset ends the note even in an onset frame)
+  ons = [s for s in U.walk_stmts(fn) if isinstance(s, ast.Assign) and norm_text(s.targets[0]) == 'frames' and isinstance(s.value, ast.Call) and
+         dotted(s.value.func) in ('np.logical_or', 'numpy.logical_or') and 'onset_predictions' in norm_text(s.value)]
+  offs = [s for s in U.walk_stmts(fn) if isinstance(s, ast.Assign) and isinstance(s.targets[0], ast.Subscript) and norm_text(s.targets[0].value) == 'frames' and
+          'offset_predictions' in norm_text(s.targets[0].slice) and U.const_value(s.value) == 0]
+  oko = len(ons) == 1 and len(offs) == 1 and ons[0].lineno < offs[0].lineno and offs[0].lineno < loop.lineno
+  ctx.ob('DEC/onset-then-offset', fi, offs[0] if offs else fn, oko, 'onset frames are made active first, then frames with a predicted offset are cleared' if oko else
+         'the offsets are not applied after the onsets were merged into the frames: a cell with both stays active and the note runs through its predicted offset',
+         construct='frames = frames | onsets; frames[frames & offsets] = 0')
   tt = [s for s in fn.body if isinstance(s, ast.Assign) and norm_text(s.targets[0]).endswith('.total_time')]
   ok = len(tt) == 1 and nf.equal(tt[0].value, E('len(frames) * %s' % flen))
   ctx.ob('DEC/total-time', fi, tt[0] if tt else fn, ok, 'total_time = number of frames * frame length' if ok else 'total_time is not len(frames) * frame_length')
 
 
 MUTANTS = [
+    Mutant('seed C18_d: a run that is too short is not forgotten', F, "      note.program = program\n\n    del pitch_start_step[pitch]\n", "      note.program = program\n      del pitch_start_step[pitch]\n", rule='DEC/end-clears-start'),
+    Mutant('seed C18_e: offsets applied before the onsets are merged in', F, "    frames = np.logical_or(frames, onset_predictions)\n\n  if offset_predictions is not None:\n    offset_predictions = np.append(offset_predictions,\n                                   [np.zeros(offset_predictions[0].shape)], 0)\n    # If the frame and offset are both on, then turn it off\n    frames[np.where(np.logical_and(frames > 0, offset_predictions > 0))] = 0\n",
+           "    onset_pending = True\n\n  if offset_predictions is not None:\n    offset_predictions = np.append(offset_predictions,\n                                   [np.zeros(offset_predictions[0].shape)], 0)\n    # If the frame and offset are both on, then turn it off\n    frames[np.where(np.logical_and(frames > 0, offset_predictions > 0))] = 0\n  if onset_predictions is not None:\n    frames = np.logical_or(frames, onset_predictions)\n", rule='DEC/onset-then-offset'),
     Mutant('end frame floors', F, "    end_frame = int(math.ceil(end_time * frames_per_second))", "    end_frame = int(math.floor(end_time * frames_per_second))", rule='FRAME/end-ceil'),
     Mutant('start frame rounds', F, "    start_frame = int(start_time * frames_per_second)\n", "    start_frame = int(round(start_time * frames_per_second))\n", rule='FRAME/start-floor'),
     Mutant('minimum length dropped', F, "    end_frame = max(start_frame + 1, end_frame)\n\n    return start_frame, end_frame", "    end_frame = max(start_frame, end_frame)\n\n    return start_frame, end_frame", rule='FRAME/at-least-one'),
